@@ -12,6 +12,7 @@ import (
 type Ops struct {
 	C      *Ctl
 	Decide func(op string, r *go9p.SrvReq) Cmd // nil: park at the controller's "impl" gate
+	GateCb bool                                // park inside the FidDestroy / ConnClosed callbacks too (slow callbacks)
 }
 
 func (o *Ops) call(op string, r *go9p.SrvReq) {
@@ -157,13 +158,21 @@ func (o *Ops) ConnOpened(conn *go9p.Conn) {
 func (o *Ops) ConnClosed(conn *go9p.Conn) {
 	o.C.mu.Lock()
 	o.C.Events = append(o.C.Events, Event{"ev": "closed", "c": o.C.connIdx[conn]})
+	gate := o.GateCb && o.C.Gated && o.C.connIdx[conn] == 0
 	o.C.mu.Unlock()
+	if gate {
+		o.C.park("cb_closed", conn, nil)
+	}
 }
 
 func (o *Ops) FidDestroy(f *go9p.SrvFid) {
 	o.C.mu.Lock()
 	o.C.Events = append(o.C.Events, Event{"ev": "destroy", "c": o.C.connIdx[f.Fconn], "fid": go9p.VerifFidNo(f)})
+	gate := o.GateCb && o.C.Gated && o.C.connIdx[f.Fconn] == 0 && o.C.Conns[0].Closed
 	o.C.mu.Unlock()
+	if gate {
+		o.C.park("cb_destroy", f.Fconn, nil)
+	}
 }
 
 // OpsF adds FlushOp: the flush worker parks at "flushop" with the target; "cancel" calls target.Flush().
